@@ -847,7 +847,8 @@ Error CodeHolder::new_named_label_id(Out<uint32_t> label_id_out, const char* nam
 uint32_t CodeHolder::label_id_by_name(const char* name, size_t name_size, uint32_t parent_id) noexcept {
   uint32_t hash_code = CodeHolder_hash_name_and_get_size(name, name_size);
   if (ASMJIT_UNLIKELY(!name_size)) {
-    return 0;
+    // No label has an empty name (new_named_label_id() refuses it), so the empty name designates no label.
+    return Globals::kInvalidId;
   }
 
   if (parent_id != Globals::kInvalidId) {
